@@ -210,7 +210,7 @@ func init() {
 		ThoroughS: 600,
 		Rule: "quoted: 25 opening forms (3 delimiters x real/after-space/after-number/@/@@, virtual quotes, n' N' e' E' u&' U&') x EVERY body over {delimiter, backslash, 'a', other quote}^<=10 (quick) / <=11 (thorough) x 2 tails, " +
 			"judged by an independent first-real-terminator scanner (backslash parity back to the content start, doubled delimiter skipped as a pair): content length (clipped to 31), close mark and resume offset; " +
-			"q-strings: all 223 delimiter bytes >= 33 x bodies over {b, close(b), quote, 'a'}^<=5 x 6 prefixes; dollar strings: 4 tags x bodies over {$, a, A, b}^<=7 (8 thorough); non-trivial = the literal is closed",
+			"q-strings: all 223 delimiter bytes >= 33 x bodies over {b, close(b), quote, 'a'}^<=5 x 6 prefixes; dollar strings: 4 tags x bodies over {$, a, A, b}^<=7 (8 thorough); backslash runs of every length 0..80 and around 128..65536 behind fillers of 0..4098 bytes; non-trivial = the literal is closed",
 		Assumptions: []string{"the oracle refsql.StringEnd is a forward scan written from the property statement; q-quote and dollar oracles are explicit loops / strings.Index"},
 		Phases: []fw.Phase{
 			{Name: "quoted-bodies", Space: "25 openers x {d, \\, a, other}^<=10/11 x 2 tails", Share: 5,
@@ -293,6 +293,55 @@ func init() {
 						}
 					}
 					w.Each(len(items), func(i int) { w.Item(items[i].body, items[i].aux) })
+				}, Eval: evalC18Quoted},
+			{Name: "backslash-runs", Space: "25 openers x filler a^p (p in {0, 1, 2, 29..34, 61..66, 126..130, 254..258, 1022..1026, 4094..4098}) x backslash^k for every k in 0..80 and around 128, 256, 512, 1024, 4096, 65536 and every new integer constant of the tree under test x {d, d a d, d d, a d} x 2 tails: the parity of a run of any length decides, however far back it starts", Share: 2,
+				Run: func(w *fw.W) {
+					var ps, ks []int
+					ps = append(ps, 0, 1, 2)
+					for _, c := range []int{32, 64, 128, 256, 1024, 4096} {
+						for d := -3; d <= 2; d++ {
+							ps = append(ps, c+d)
+						}
+					}
+					for k := 0; k <= 80; k++ {
+						ks = append(ks, k)
+					}
+					cs := []int{128, 256, 512, 1024, 4096, 65536}
+					for _, n := range alpha.NewInts() {
+						if n > 80 && n <= 1<<17 {
+							cs = append(cs, n)
+						}
+					}
+					for _, c := range cs {
+						for d := -2; d <= 2; d++ {
+							ks = append(ks, c+d)
+						}
+					}
+					type job struct {
+						op strOpener
+						p  int
+						tl string
+					}
+					var jobs []job
+					for _, op := range ops {
+						for _, p := range ps {
+							for _, tl := range c18Tails {
+								jobs = append(jobs, job{op, p, tl})
+							}
+						}
+					}
+					w.Each(len(jobs), func(i int) {
+						j := jobs[i]
+						d := string([]byte{j.op.delim})
+						aux := j.op.name + "|" + j.tl
+						pre := strings.Repeat("a", j.p)
+						for _, k := range ks {
+							run := pre + strings.Repeat("\\", k)
+							for _, after := range []string{d, d + "a" + d, d + d, "a" + d} {
+								w.Item(run+after, aux)
+							}
+						}
+					})
 				}, Eval: evalC18Quoted},
 			{Name: "q-strings", Space: "223 delimiter bytes x {b, close(b), ', a}^<=5 x {q' Q' nq' Nq' NQ' nQ'}", Share: 2,
 				Run: func(w *fw.W) {
